@@ -17,5 +17,6 @@ for d in seeded/C*/; do
   echo "| $n | $p | rc=$rc | $nv | $(grep -E "^$p quick:" work/seed_run.log | sed 's/.*transitions, //') |" >> $out
   echo "$n $p rc=$rc violations=$nv"
 done
-{ echo "# Every seeded change against its own property's quick check"; echo; echo "| change | property | exit | VIOLATION lines | run |"; echo "|---|---|---|---|---|"; cat $out; } > seeded/DIAGONAL.md
+dest=seeded/DIAGONAL.md; [ -n "$sel" ] && dest=seeded/DIAGONAL.partial.md   # a selection never overwrites the full table
+{ echo "# Every seeded change against its own property's quick check"; echo; echo "| change | property | exit | VIOLATION lines | run |"; echo "|---|---|---|---|---|"; cat $out; } > $dest
 rm -f $out
